@@ -380,7 +380,9 @@ pub fn codec_targets() -> Vec<Target> {
     ];
     let mut t = vec![
         Target { name: "abi.cbor-value", law_b: true, seeds: abi_seeds, run: run_abi_value, alloc_cap: 0 },
-        Target { name: "edict.cbor-value", law_b: true, seeds: edict_seeds, run: run_edict, alloc_cap: 0 },
+        // documented decode budget: MAX_CANONICAL_DECODE_NODES_V1 nodes are reserved before the slots
+        // are allocated, whatever the input size (64 bytes per map entry slot)
+        Target { name: "edict.cbor-value", law_b: true, seeds: edict_seeds, run: run_edict, alloc_cap: echo_edict_canonical::MAX_CANONICAL_DECODE_NODES_V1 * 64 },
         Target { name: "abi.intent-envelope", law_b: true, seeds: intent_seeds, run: run_intent, alloc_cap: 0 },
         Target { name: "abi.eintlog", law_b: true, seeds: elog_seeds(), run: run_elog, alloc_cap: echo_wasm_abi::MAX_FRAME_LEN },
         Target { name: "core.ingress-envelope", law_b: true, seeds: ingress_seeds(), run: run_ingress, alloc_cap: 0 },
